@@ -31,7 +31,7 @@ _DRIVE_LOOP = """
             b0 == old(self).reader.rest(),
             // what was read before the loop stays known inside it (so that a `return Ok(header)` from inside the loop
             // verifies like `break` + trailing `Ok(header)`)
-            c04(header.version.0 == be16(b0) && header.operation_or_status == be16(b0.skip(2)) && header.request_id == be32(b0.skip(4))),
+            c04($HDR.version.0 == be16(b0) && $HDR.operation_or_status == be16(b0.skip(2)) && $HDR.request_id == be32(b0.skip(4))),
             c02(old(self).state.sizes() ==> self.state.sizes()),
             wf0 <==> (b0.len() >= 8 && old(self).state.abs() == m_init() && m_run(b0.skip(8), m_init()) is Some),
             c04(wf0 ==> m_run(self.reader.rest(), self.state.abs()) == m_run(b0.skip(8), m_init())),
@@ -72,6 +72,7 @@ def _front(ty):
          'spec': '    ensures r.fresh(), r.sizes_ok(),'},
         {'op': 'fn', 'path': f'{ty}::parse_value', 'ret': 'r', 'spec': _PV_SPEC},
         {'op': 'fn', 'path': f'{ty}::parse_header_attributes', 'ret': 'r', 'spec': _DRIVE_SPEC,
+         'bind': {'HDR': r'let\s+(\w+)\s*=\s*self\s*\.\s*reader\s*\.\s*read_header\s*\('},
          'loops': {0: _DRIVE_LOOP},
          'proofs': [{'at_start': True,
                      'text': 'let ghost b0 = old(self).reader.rest(); let ghost a0 = old(self).state.abs(); let ghost wf0 = b0.len() >= 8 && old(self).state.abs() == m_init() && m_run(b0.skip(8), m_init()) is Some;'}]},
